@@ -125,6 +125,7 @@ class AbsInt:
             self.fi, self.env, self.depth = fi, env, depth
             self.busy = set()
             self.pinned = frozenset()
+            self.memo = {}
 
     def eval_in(self, fi, expr, env=None, depth=0):
         return self.ev(expr, AbsInt.Ctx(fi, dict(env or {}), depth))
@@ -170,6 +171,26 @@ class AbsInt:
         return out
 
     def name(self, name, ctx):
+        """ENV_REBINDING domains memoise the value of a name per activation (ctx.memo); a value computed while a
+        loop-carried definition was cut (cyclic) is partial and is not memoised"""
+        if not self.ENV_REBINDING:
+            return self._name(name, ctx)
+        if name in ctx.memo:
+            return ctx.memo[name]
+        before = getattr(self, "_n_cyclic", 0)
+        v = self._name(name, ctx)
+        if getattr(self, "_n_cyclic", 0) == before:
+            ctx.memo[name] = v
+        return v
+
+    def _outer_memo(self, f):
+        """memo of an enclosing function's activation as seen from a nested function (keyed by the identity of its frame)"""
+        frames = getattr(self, "frames", None)
+        fr = frames.get(id(f.node)) if frames is not None else None
+        store = self.__dict__.setdefault("_outer_memos", {})
+        return store.setdefault((id(f.node), id(fr)), {})
+
+    def _name(self, name, ctx):
         if name in ctx.env:
             if not self.ENV_REBINDING or name in ctx.pinned or ctx.fi is None or not df.assignments(ctx.fi.node, into_nested=False).get(name):
                 return ctx.env[name]
@@ -179,6 +200,17 @@ class AbsInt:
             asg = df.assignments(f.node, into_nested=False).get(name, [])
             a = f.node.args
             params = [x.arg for x in a.posonlyargs + a.args + a.kwonlyargs]
+            if self.ENV_REBINDING and any(isinstance(v, ast.AugAssign) for v, _p, _s in asg):
+                # `x op= e` is the re-binding `x = x op e`
+                conv = []
+                for v, path, st in asg:
+                    if isinstance(v, ast.AugAssign):
+                        b = ast.BinOp(left=ast.Name(id=name, ctx=ast.Load()), op=v.op, right=v.value)
+                        ast.copy_location(b, v)
+                        ast.copy_location(b.left, v)
+                        v = b
+                    conv.append((v, path, st))
+                asg = conv
             if self.ENV_REBINDING:
                 bound = f is ctx.fi and name in ctx.env
                 has_base = bound or name in params
@@ -188,6 +220,7 @@ class AbsInt:
                 base_of = lambda: self.param(f, name)  # noqa: E731
             if asg:
                 if key in ctx.busy:
+                    self._n_cyclic = getattr(self, "_n_cyclic", 0) + 1
                     return self.cyclic(name)
                 ctx.busy.add(key)
                 try:
@@ -195,6 +228,8 @@ class AbsInt:
                     sub = AbsInt.Ctx(f, ctx.env if f is ctx.fi else {}, ctx.depth + 1)
                     sub.busy = ctx.busy
                     sub.pinned = ctx.pinned if f is ctx.fi else frozenset()
+                    if self.ENV_REBINDING:
+                        sub.memo = ctx.memo if f is ctx.fi else self._outer_memo(f)
                     # self-referential re-bindings (`V = lazify(V)`, `x = x[..., None]`) are evaluated on top of
                     # the join of the other bindings
                     selfref = [(v, path, st) for v, path, st in asg if not isinstance(v, ast.AugAssign) and name in df.names_in(v)]
